@@ -79,24 +79,38 @@ def check_closers_serialised(ctx: Ctx, oid: str) -> None:
 
 
 def _registration_only_open(repo: Repo, ob: Obligation, f_set: FuncInfo, cfg) -> None:
-    regs = [n for n in cfg.nodes if isinstance(n.ast, ast.Assign) and isinstance(n.ast.targets[0], ast.Subscript) and "_callbacks" in unparse(n.ast.targets[0]) and n.id in cfg.live()]
-    ob.require(len(regs) == 1, "callback registration not found")
-    r = regs[0]
-    in_empty = any(isinstance(a, ast.ExceptHandler) and a.type is not None and unparse(a.type).endswith("Empty") for a in repo.ancestors(r.ast))
-    f = Facts(repo, f_set, {})
-    for (t, lab) in cfg.guards(r.id):
-        if t.kind == "test":
-            f.assume(t.ast, lab == "true")
-    open_ = f.get("self._closed") is False and f.get("self._receiveclosed.is_set()") is False
-    ob.site(f_set, r.ast, "registration only when the queue is empty and the channel is not closed", in_empty_handler=in_empty, open=open_)
-    if not in_empty:
-        ob.violation(f_set, r.ast, "the callback is registered while items may still be queued: later items would overtake them")
-    if not open_:
-        ob.violation(f_set, r.ast, "the callback is registered on a channel that is already closed: its endmarker would never fire")
-    val = r.ast.value
-    if not (isinstance(val, ast.Tuple) and [unparse(e) for e in val.elts] == ["callback", "endmarker", "self._strconfig"]) or unparse(r.ast.targets[0].slice) != "self.id":
-        ob.violation(f_set, r.ast, "the registry entry is not (callback, endmarker, strconfig) under the channel's own id")
+    """over value terms along all feasible paths of setcallback: the registry store happens only after the queue
+    was found empty and with the channel neither closed nor receive-closed, as (callback, endmarker, strconfig)
+    under the channel's own id"""
+    from ..terms import Evaluator
 
+    ev = Evaluator(repo, f_set, cfg)
+    heads = {n.id for n in cfg.nodes if n.kind in ("test", "for") and isinstance(n.owner, (ast.While, ast.For))}
+    nreg = 0
+    seen = set()
+    for (_p, st) in ev.run(back_stops=heads, limit=20000):
+        for e in st.events:
+            if not (e.kind == "store" and e.recv is not None and e.recv[0] == "sym" and e.recv[1].endswith("._callbacks")):
+                continue
+            nreg += 1
+            before = st.events[:st.events.index(e)]
+            gets = [x for x in before if x.kind == "call" and x.attr in ("get", "get_nowait")]
+            in_empty = bool(gets) and gets[-1].raised
+            cond = st.cond[:e.ncond]
+            isset = [x.result for x in before if x.kind == "call" and x.callee == "self._receiveclosed.is_set"]
+            open_ = (("sym", "self._closed"), False) in cond and any((r, False) in cond for r in isset)
+            if id(e.node) not in seen:
+                seen.add(id(e.node))
+                ob.site(f_set, e.node, "registration only when the queue is empty and the channel is not closed", in_empty_handler=in_empty, open=open_)
+            if not in_empty:
+                ob.violation(f_set, e.node, "the callback is registered while items may still be queued: later items would overtake them")
+            if not open_:
+                ob.violation(f_set, e.node, "the callback is registered on a channel that is already closed: its endmarker would never fire")
+            ps = f_set.params()
+            if e.value != ("tuple", ("sym", ps[1]), ("sym", ps[2]), ("sym", "self._strconfig")) or e.key != ("sym", "self.id"):
+                ob.violation(f_set, e.node, "the registry entry is not (callback, endmarker, strconfig) under the channel's own id")
+    if nreg == 0:
+        ob.violation(f_set, f_set.node, "setcallback never registers the callback for items arriving later", construct="no registration")
 
 
 def check_registration_only_open(ctx: Ctx, oid: str) -> None:
@@ -298,48 +312,90 @@ def check(ctx: Ctx) -> None:
     check_close_all(ctx, "C10.h")
 
     with ctx.obligation("C10.f", "multichannel") as ob:
+        from ..terms import cmp_term, const, evaluator, show
         fm = repo.func("multi.MultiChannel.make_receive_queue")
-        inner = [f for f in repo.scan_funcs() if f.parent is fm]
-        ob.require(len(inner) == 1, "per-channel closure not found in make_receive_queue")
-        pr = inner[0]
-        loop = [n for n in repo.own_nodes(fm) if isinstance(n, ast.For)]
-        ob.require(len(loop) == 1, "channel loop not found")
-        lv = unparse(loop[0].target)
-        dn = [a.arg for a in pr.node.args.args][-len(pr.node.args.defaults):] if pr.node.args.defaults else []
-        dv = [unparse(d) for d in pr.node.args.defaults]
-        bound = dict(zip(dn, dv))
-        used_free = [n.id for n in ast.walk(pr.node) if isinstance(n, ast.Name) and n.id == lv and isinstance(n.ctx, ast.Load)
-                     and not any(n is d or n in ast.walk(d) for d in pr.node.args.defaults)]
-        ob.site(pr, pr.node, "closure binds the loop variable by default argument", defaults=bound)
-        if lv not in bound.values() or used_free:
-            ob.violation(pr, pr.node, "the per-channel callback refers to the loop variable by late binding: every item would be attributed to the last channel")
-        puts = [c for c in repo.calls_in(pr) if callee_attr(c) == "put"]
-        chan_param = [k for k, v in bound.items() if v == lv]
-        ok = len(puts) == 1 and isinstance(puts[0].args[0], ast.Tuple) and [unparse(e) for e in puts[0].args[0].elts] == [chan_param[0] if chan_param else "?", pr.params()[0]] \
-            and unparse(puts[0].func.value) == "self._queue"
-        ob.site(pr, puts[0] if puts else pr.node, "puts (channel, item) on the one shared queue", ok=ok)
-        if not ok:
-            ob.violation(pr, pr.node, "the per-channel callback does not put (its channel, item) on the shared queue")
-        qs = [c for c in repo.calls_in(fm) if unparse(c.func).endswith(".Queue")]
-        guarded = all(any(isinstance(a, ast.If) and "self._queue is None" in unparse(a.test) for a in repo.ancestors(q)) for q in qs)
-        if len(qs) != 1 or not guarded:
-            ob.violation(fm, fm.node, "more than one receive queue can be created")
-        scs = [c for c in repo.calls_in(fm) if callee_attr(c) == "setcallback"]
-        ob.require(len(scs) >= 1, "setcallback calls not found")
-        cfm = build_cfg(repo, fm, Oracle(repo, fm, precise=True))
-        for c in scs:
-            em = [k for k in c.keywords if k.arg == "endmarker"] or ([c.args[1]] if len(c.args) > 1 else [])
-            for nd in cfm.node_containing(c):
-                f = Facts(repo, fm, {})
-                for (t, lab) in cfm.guards(nd.id):
-                    if t.kind == "test":
-                        f.assume(t.ast, lab == "true")
-                wanted = f.get("endmarker is NO_ENDMARKER_WANTED")
-                fw = bool(em) and unparse(em[0].value if isinstance(em[0], ast.keyword) else em[0]) == "endmarker"
-                ob.site(fm, c, "the caller's endmarker is forwarded to every member channel", forwards=fw, no_endmarker_branch=wanted)
-                if unparse(c.func.value) != lv or unparse(c.args[0]) != pr.name:
-                    ob.violation(fm, c, "setcallback is not applied to the loop's channel with the per-channel closure")
+        evm = evaluator(repo, fm, Oracle(repo, fm, precise=True))
+        heads = {n.id for n in evm.cfg.nodes if n.kind in ("test", "for") and isinstance(n.owner, (ast.While, ast.For))}
+        ENDP = ("sym", fm.params()[1])
+        NOEM = cmp_term("is", ENDP, ("sym", "NO_ENDMARKER_WANTED"))
+        CHS = ("sym", "self._channels")
+        nset = 0
+        seen = set()
+
+        def puts_pair(fn_node, bound: dict, free_ok: set, item_param: str, where) -> bool:
+            """the callback body puts (its channel, item) on the one shared queue"""
+            calls = [c for c in ast.walk(fn_node) if isinstance(c, ast.Call) and callee_attr(c) == "put"]
+            if len(calls) != 1 or unparse(calls[0].func.value) != "self._queue" or not calls[0].args or not isinstance(calls[0].args[0], ast.Tuple):
+                return False
+            elts = [unparse(x) for x in calls[0].args[0].elts]
+            return len(elts) == 2 and elts[0] in bound and elts[1] == item_param
+
+        for (pth, st) in evm.run(back_stops=heads, limit=20000):
+            for e in st.events:
+                if e.kind == "call" and (e.callee or "").endswith(".Queue"):
+                    in_loop = any(isinstance(a, (ast.For, ast.While)) for a in repo.ancestors(e.node))
+                    cur = [x.old for x in st.events if x.kind == "assign" and x.target == "self._queue" and x.value == e.result]
+                    guarded = any((t, v) == (cmp_term("is", c_, ("const", None)), True) for (t, v) in st.cond[:e.ncond] for c_ in cur if c_ is not None) or \
+                        any(c_ == ("const", None) for c_ in cur)
+                    if not cur:
+                        ob.violation(fm, e.node, "the created queue is not stored as the one shared receive queue")
+                    elif in_loop and not guarded:
+                        ob.violation(fm, e.node, "more than one receive queue can be created")
+                if not (e.kind == "call" and e.attr == "setcallback"):
+                    continue
+                nset += 1
+                E = e.recv
+                if not (E is not None and E[0] == "elem" and E[1] == CHS):
+                    ob.violation(fm, e.node, "setcallback is not applied to the loop's channel with the per-channel closure")
+                    continue
+                cb = e.arg(0, "callback")
+                ok = False
+                if cb is not None and cb[0] == "func" and cb[1] in st.defs:
+                    fn = st.defs[cb[1]]
+                    dn = [a.arg for a in fn.args.args][-len(fn.args.defaults):] if fn.args.defaults else []
+                    dv = st.env.get(f"{cb[1]}.__defaults__", ("tuple",))[1:]
+                    bound = {k: v for k, v in zip(dn, dv) if v == E}
+                    lv = unparse(e.node.func.value) if isinstance(e.node.func, ast.Attribute) else "?"
+                    used_free = [n_ for n_ in ast.walk(fn) if isinstance(n_, ast.Name) and n_.id == lv and isinstance(n_.ctx, ast.Load)
+                                 and not any(n_ is d or n_ in ast.walk(d) for d in fn.args.defaults)]
+                    pos = [a.arg for a in fn.args.args if a.arg not in dn]
+                    if not bound or used_free:
+                        ob.violation(fm, fn, "the per-channel callback refers to the loop variable by late binding: every item would be attributed to the last channel")
+                    ok = bool(bound) and not used_free and len(pos) == 1 and puts_pair(fn, bound, set(), pos[0], fm)
+                elif cb is not None and cb[0] == "pcall" and cb[1] == "partial" and len(cb[2]) >= 2 and cb[2][0][0] == "sym" and cb[2][0][1].startswith("self."):
+                    tgt = repo.lookup_method(repo.cls("MultiChannel"), cb[2][0][1].split(".", 1)[1])
+                    if tgt is not None:
+                        ps = [p_ for p_ in tgt.params() if p_ != "self"]
+                        nb = len(cb[2]) - 1
+                        bound = {p_: v for p_, v in zip(ps, cb[2][1:]) if v == E}
+                        ok = bool(bound) and len(ps) == nb + 1 and puts_pair(tgt.node, bound, set(), ps[nb], tgt)
+                elif cb is not None and cb[0] == "lambda" and cb[1] in st.defs:
+                    fn = st.defs[cb[1]]
+                    dn = [a.arg for a in fn.args.args][-len(fn.args.defaults):] if fn.args.defaults else []
+                    lv = unparse(e.node.func.value) if isinstance(e.node.func, ast.Attribute) else "?"
+                    bound = {k: E for k, d in zip(dn, fn.args.defaults) if unparse(d) == lv}
+                    pos = [a.arg for a in fn.args.args if a.arg not in dn]
+                    ok = bool(bound) and len(pos) == 1 and puts_pair(fn.body, bound, set(), pos[0], fm)
+                    if not bound:
+                        ob.violation(fm, fn, "the per-channel callback refers to the loop variable by late binding: every item would be attributed to the last channel")
+                if id(e.node) not in seen:
+                    ob.site(fm, e.node, "per-channel callback binds its channel early and puts (channel, item) on the one shared queue", ok=ok, callback=show(cb) if cb else None)
+                if not ok:
+                    ob.violation(fm, e.node, "the per-channel callback does not put (its channel, item) on the shared queue")
+                # endmarker forwarding
+                em = e.arg(1, "endmarker")
+                fw = em == ENDP
+                star = e.kwargs.get("**")
+                if star is not None:
+                    fw = fw or any(x.kind == "store" and x.recv == star and x.key == const("endmarker") and x.value == ENDP for x in st.events[:st.events.index(e)])
+                wanted = st.known.get(NOEM)
+                if id(e.node) not in seen:
+                    ob.site(fm, e.node, "the caller's endmarker is forwarded to every member channel", forwards=fw, no_endmarker_branch=wanted)
+                seen.add(id(e.node))
                 if wanted is not True and not fw:
-                    ob.violation(fm, c, "a requested endmarker is not forwarded to a member channel")
+                    ob.violation(fm, e.node, "a requested endmarker is not forwarded to a member channel")
+                if wanted is True and fw:
+                    ob.violation(fm, e.node, "the private NO_ENDMARKER_WANTED default is forwarded as if it were a requested endmarker")
+        ob.require(nset >= 1, "setcallback calls not found")
 
     check_terminal_frame(ctx, "C10.g")
